@@ -76,6 +76,7 @@ def run(ctx, chk, tier):
                        "Equality of confusion matrices with the materialised object then follows from C01's table (easy counts are additive constants in TP and TN).")
     chk.trusted |= {"C01 decision table", "guarded quotient where defined"}
     chk.assumptions = ["easy counts are non-negative integers", "exact real arithmetic"]
+    declared_counts_stored(ctx, chk)
     # R09.1 coefficients of the easy counts
     for sc, ec in GAMMAS:
         tab = derive_cm_table(ctx, chk, sc, ec, rule="R09.1")
@@ -197,3 +198,36 @@ def from_labels_forwarding(ctx, chk):
             chk.hold("R09.4", "from_labels", "from_labels forwards both easy counts, both flags and is_sorted; pos/neg split by == / != pos_label")
         for k, g, w in bad:
             chk.violation("R09.4", flq, "forward:" + k, show(g, 100) if g is not None else "missing", show(w, 100), ctx.where(flq))
+
+
+def declared_counts_stored(ctx, chk, rule="R09.1"):
+    """The constructor keeps the declared easy counts AS GIVEN, whatever number type they arrive in: a python int, a numpy integer scalar
+    (`mask.sum()`) or a 0-d array are all legitimate counts.  The counts are passed as untyped scalar symbols, so a type test in the
+    constructor (`isinstance(k, int)`) is undecided and both of its arms are explored: an arm that stores anything but the count itself
+    (its size, a default) replaces the declaration for some number types."""
+    from ..terms import Sym as _Sym
+    from ..spec import POS as _P, NEG as _N
+    K = _Sym("k_declared", ("param_scalar", "notnone"))
+    M = _Sym("m_declared", ("param_scalar", "notnone"))
+    ci = ctx.db.cls(SCORES)
+    try:
+        outs = ctx.explore(lambda: ctx.ev.instantiate(ci, [_P, _N], {"nb_easy_pos": K, "nb_easy_neg": M, "is_sorted": Const(True)}), chk)
+    except Exception as e:  # noqa: BLE001
+        chk.unknown(rule, "Scores(..., nb_easy_pos=k, nb_easy_neg=m): %s" % str(e)[:120])
+        return
+    rets = returns(outs)
+    if not rets:
+        chk.unknown(rule, "Scores(..., nb_easy_pos=k, nb_easy_neg=m): no return path")
+        return
+    bad = None
+    for o in rets:
+        for attr, want in (("nb_easy_pos", K), ("nb_easy_neg", M)):
+            got = o.value.attrs.get(attr)
+            conv = isinstance(got, App) and got.fn in ("trunc", "floor", "ceil", "round", "int", "fresh", "asarray") and got.args and same(got.args[0], want)
+            if got is None or not (same(got, want) or conv):      # int(k) / operator.index(k) of a declared integer count is the count
+                bad = bad or (attr, got, pc_text(o))
+    if bad:
+        chk.violation(rule, SCORES + ".__init__", "declared-count:" + bad[0], "self.%s = %s when %s" % (bad[0], show(bad[1], 80) if bad[1] is not None else "unset", bad[2][:140] or "always"),
+                      "the declared count itself for every number type (python int, numpy integer, 0-d array)", ctx.where(SCORES + ".__init__"))
+    else:
+        chk.hold(rule, "declared-counts-stored", "nb_easy_pos / nb_easy_neg are stored as given on %d construction path(s)" % len(rets), nontrivial=False)
